@@ -483,14 +483,14 @@ def frag(rng):
     if r < 0.50:
         return f"{name(rng)}, {num(rng)} {rep(rng)} at {num(rng)}, {num(rng)} {rep(rng)} {num(rng)}"
     if r < 0.57:
-        return f"{ref_name(rng)}{rng.choice([', ', ', ', ' , ', ' '])}{rng.choice(['', num(rng) + ' '])}{foldvar(rng, 'supra')}{rng.choice([', at ' + num(rng), '', ',', ' at ' + num(rng), ' note ' + num(rng) + ', at ' + num(rng), ' note ' + num(rng), ', n. ' + num(rng) + ', at ' + num(rng)])}"
+        return f"{rng.choice([ref_name(rng)] * 9 + ['...', '--', '…', '.-.'])}{rng.choice([', ', ', ', ' , ', ' '])}{rng.choice(['', num(rng) + ' '])}{foldvar(rng, 'supra')}{rng.choice([', at ' + num(rng), '', ',', ' at ' + num(rng), ' note ' + num(rng) + ', at ' + num(rng), ' note ' + num(rng), ', n. ' + num(rng) + ', at ' + num(rng)])}"
     if r < 0.65:
         return foldvar(rng, rng.choice(["Id.", "Id. at " + num(rng), "Ibid.", "id., at " + num(rng) + "-" + num(rng),
                                         "Id. at " + num(rng) + " (noting x)", "Id., at *" + num(rng)]))
     if r < 0.71:
         return rng.choice(["42 U.S.C. § 1983", "Mass. Gen. Laws ch. 1, § 2 (West 1999)", "§ 5", "§§ 1-2",
                            "29 C.F.R. § 1910.1200(a)(2)", "Fla. Stat. § 1.01 (2020)",
-                           "1 Stat. 2", "Pub. L. No. 94-553", "42 U.S.C. §1983(b)", "§42 U.S.C. § 1983", "29 C.F.R. §1910.1200(g)(8)"])
+                           "1 Stat. 2", "Pub. L. No. 94-553", "18 U.S.C. § 1961 et seq. and", "Mass. Gen. Laws ch. 1, § 2(a) and (d) of", "42 U.S.C. §1983(b)", "§42 U.S.C. § 1983", "29 C.F.R. §1910.1200(g)(8)"])
     if r < 0.73:
         return f"{rng.choice(['', 'In ', 'As '])}{ref_name(rng)} at {num(rng)}"
     if r < 0.75:
